@@ -11,13 +11,14 @@ ENVS = [
     [],                              # nothing set
     ["AB=long-value-long-value", "A=s", "HOME=", "ABC"],   # entry without '='; empty HOME
     ["A=1", "A=2", "HOMER=x", "HOME=/first", "HOME=/second"],  # duplicates: first wins; prefix names
+    ["A0=a0", "A=a", "Z=zed", "Z9=z9", "0=zero", "9=nine", "09=o9", "AZ_09=all", "HOME=/h"],   # names at the edges of A-Z, 0-9
     ["N" * 63 + "=v63", "N" * 63 + "X=v64", "M" * 200 + "=v200", "A=1"],   # long names (no fixed-size name buffer may truncate them)
 ]
 
 def run(ck):
     ck.level = "proof"
     ck.cov["rule"] = ("every string over {$ ~ A _ a / : { }} up to length 5 (quick) / 7 (thorough) plus '1'-containing and seeded random longer strings, "
-                      "each under 8 environments (set, unset, empty values, values containing $ and ~, HOME unset, duplicates, names of 63/64/200 characters, environ == NULL); "
+                      "each under 9 environments (set, unset, empty values, values containing $ and ~, HOME unset, duplicates, names at the edges of A-Z / 0-9, names of 63/64/200 characters, environ == NULL); "
                       "non-trivial = string containing '$' or '~'")
     ck.assumptions += ["strings and environment entries are NUL-terminated C strings", "realloc grows a block preserving its prefix"]
     if not ck.build_driver(): return
@@ -33,10 +34,13 @@ def run(ck):
         strings += ["".join(t) for t in itertools.product(alpha, repeat=n)]
     extra = ["$A", "a$A", "ab$A!", "$A$AB", "$AB$A", "x$Ay", "~", "~/x", "a:~:b", "~a", "a~", "a~/b", "$", "$$", "$a", "${A}", "$1", "$A1", "$_", "$__x", "~~", "~:~",
              "/usr/$A/$AB/~/x", "$ABC", "$AB_", "pre$AAA", "$HOME/~", "~$A", "$A~", "$A~/", "x$", "x~", "$Z9_z"]
+    # name characters at the edges of the three ranges and the characters just outside them ('/' ':' '@' '[' '^' '`')
+    extra += ["$A0", "$A9", "$0", "$9", "$09", "$Z", "$Z9", "$AZ_09", "$A0/x", "$A:0", "$A/0", "$A@", "$@A", "$A[", "$[", "$A^", "$A`", "$`", "$A0$Z9", "x$0y", "$9:$0", "$Az", "$Za", "$z", "$a0",
+              "~0", "~9", "~Z", "~_", "~@", "~[", "0~", "9~/"]
     extra += ["$" + "N" * 63, "$" + "N" * 63 + "X", "<$" + "N" * 63 + "XY>", "$" + "N" * 62, "a$" + "M" * 200 + "/b", "$" + "M" * 199, "$" + "M" * 201, "$" + "N" * 63 + "/$" + "N" * 63 + "X"]
     for _ in range(2000 if ck.tier == "quick" else 40000):
         n = ck.rng.randint(6, 30)
-        extra.append("".join(ck.rng.choice("$$~~AAB_a1/:{}x.-") for _ in range(n)))
+        extra.append("".join(ck.rng.choice("$$~~AAB_a1/:{}x.-09Zz@[") for _ in range(n)))
     strings += extra
     hist = []
     for ei, env in enumerate(ENVS + [None]):
